@@ -178,6 +178,7 @@ type SynthOpts struct {
 	ManyDist   bool // code many distance symbols (long distance codes, long-code tables)
 	Tight      bool // no unused-but-coded symbols: short codes, packed multi-symbol table entries
 	SmallAlpha int  // >0: literals drawn from this many symbols
+	ForceKind  int  // 0 = any block type; 1 = only fixed-Huffman blocks; 2 = only dynamic blocks
 }
 
 var faultNames = []string{"dist-beyond", "unassigned-code", "oversubscribed", "missing-eob", "repeat-nothing", "run-past-count", "bad-nlen", "btype3", "len-286", "dist-30", "unassigned-dist", "no-dist-code-used", "oversub-cl", "hlit-range", "unassigned-dist-long", "stale-dist", "stale-lit"}
@@ -830,6 +831,12 @@ func Synthesize(r *Rng, o SynthOpts) ([]byte, []byte, string) {
 	for b := 0; b < nb; b++ {
 		final := b == nb-1
 		kind := r.Intn(5) // 0 stored 1 fixed 2,3,4 dynamic
+		switch o.ForceKind {
+		case 1:
+			kind = 1
+		case 2:
+			kind = 2
+		}
 		if (o.Fault == "stale-dist" || o.Fault == "stale-lit") && b == faultBlock-1 {
 			kind = 2
 		}
@@ -932,7 +939,25 @@ func (s *Synth) injectDistBeyond(toks []tok) []tok {
 
 // SynthBoundary builds a valid stream in which a block ends (or a match / literal group straddles) exactly
 // where the Reader's 64 KiB output window fills up: total output 65536 + 32768*j, plus or minus a few bytes.
+// SynthOneBlockEdge: ONE final Huffman block of literals whose output ends within a few bytes of the 64 KiB
+// window (a long final block keeps the multi-symbol table mode on, so the end-of-block code can share a packed
+// table entry with the last literals at the moment the window is full).
+func SynthOneBlockEdge(r *Rng) ([]byte, []byte, string) {
+	s := &Synth{r: r, small: r.Pick([]int{1, 2, 3, 4, 8, 20})}
+	n := 65536 + r.Pick([]int{-1, 0, 1, 1, 2, 2, 3})
+	toks := s.randTokens(n, false, false)
+	if r.Intn(3) == 0 {
+		s.fixed(true, toks)
+		return s.w.b, s.out, fmt.Sprintf("oneblock-fixed%+d", n-65536)
+	}
+	s.dynamic(true, toks, SynthOpts{Tight: true})
+	return s.w.b, s.out, fmt.Sprintf("oneblock%+d", n-65536)
+}
+
 func SynthBoundary(r *Rng) ([]byte, []byte, string) {
+	if r.Intn(5) == 0 {
+		return SynthOneBlockEdge(r)
+	}
 	s := &Synth{r: r, small: r.Pick([]int{1, 2, 3, 4, 8})}
 	boundary := 65536 + 32768*r.Intn(3)
 	m := r.Intn(500)
@@ -989,6 +1014,16 @@ func SynthBoundary(r *Rng) ([]byte, []byte, string) {
 			toks = toks[:len(toks)-10]
 			toks = append(toks, tok{length: 10 - delta, dist: 1 + r.Intn(200)})
 		}
+	}
+	if r.Intn(3) == 0 {
+		// the block at the window edge is the FINAL block: its end-of-block code sits in the same (packed) table
+		// entry as the last literal(s), decoded when the window is exactly full
+		if r.Bool() {
+			s.dynamic(true, toks, o)
+		} else {
+			s.fixed(true, toks)
+		}
+		return s.w.b, s.out, fmt.Sprintf("boundary%d%+d:final", boundary, delta)
 	}
 	if r.Bool() {
 		s.dynamic(false, toks, o)
